@@ -11,7 +11,7 @@ right size, occur in no other operation, and the session key does not appear in 
 output."""
 import copy
 
-from .. import encworld, seams, world
+from .. import core, encworld, seams, world
 from ..ref import algo as ralgo, enc as renc, keys as rkeys, tkey as rtkey
 from ..ref.wire import WireError, split_packets
 
@@ -21,7 +21,7 @@ RULE = ('cases are histories of 4-12 operations (encrypt with generated or suppl
         'os.urandom failure); a run is non-trivial when at least two operations of the same class were checked against the '
         'draw log and against each other; distinct = distinct operation-class sequences with their recipient kinds')
 TIERS = {'quick': {'runs': 4000, 'budget_s': 80}, 'thorough': {'runs': 200000, 'budget_s': 1500}}
-PROBES = ('repeat_identical_encrypt', 'reprotect_same_algos', 'reprotect_other_algos', 'urandom_failure_injected', 'ecdh_ephemeral_checked',
+PROBES = ('same_message_object_again', 'repeat_identical_encrypt', 'reprotect_same_algos', 'reprotect_other_algos', 'urandom_failure_injected', 'ecdh_ephemeral_checked',
           'skesk_salt_checked', 'protect_components>=2', 'supplied_session_key', 'multi_recipient')
 
 
@@ -39,6 +39,11 @@ def generate(rng, tier):
                 st = copy.deepcopy(last_enc)
                 st['id'] = sid
                 st['repeat'] = True
+                # the caller's very same PGPMessage object encrypted again (or a new object with the same content)
+                st['same_object'] = rng.random() < 0.6
+                if rng.random() < 0.4:
+                    # ... possibly to other recipients
+                    st['recips'] = [['key', rng.choice(names)]]
             else:
                 nrec = rng.choice([1, 1, 2, 3])
                 recips = []
@@ -52,7 +57,7 @@ def generate(rng, tier):
                 st = {'id': sid, 'op': 'encrypt', 'msg': spec, 'recips': recips, 'cipher': rng.choice(encworld.CIPHERS),
                       'supplied_sk': rng.random() < 0.12}
             st['fail_urandom'] = rng.choice([1, 2, 3]) if rng.random() < 0.08 else 0
-            last_enc = {k: v for k, v in st.items() if k not in ('fail_urandom', 'repeat')}
+            last_enc = {k: v for k, v in st.items() if k not in ('fail_urandom', 'repeat', 'same_object')}
             steps.append(st)
         elif r < 0.8:
             steps.append({'id': sid, 'op': 'protect', 'key': rng.choice(names), 'pass': rng.choice(['pw one', 'pw two', 'ünï']),
@@ -141,7 +146,13 @@ def execute(case, ctx):
 
 
 def _encrypt(pgpy, R, step, recips, ctx, rnd, seen):
-    msg, data = encworld.make_message(pgpy, step['msg'])
+    cached = getattr(R, 'last_message', None)
+    if step.get('repeat') and step.get('same_object') and cached is not None and cached[0] == core.jdump(step['msg']):
+        msg = cached[1]
+        ctx.probe('same_message_object_again')
+    else:
+        msg, data = encworld.make_message(pgpy, step['msg'])
+    R.last_message = (core.jdump(step['msg']), msg)
     cid = step['cipher']
     sk = None
     if step.get('supplied_sk'):
